@@ -692,3 +692,69 @@ Lemma wrong_code_run w c n pk :
 Proof.
   cbn zeta. do 5 (symstep; rewrite ?get_set_conn_same). auto.
 Qed.
+
+(** ---- C11: what an event tells a subscriber ---- *)
+Lemma get_set_char_same : forall l i ch v, get_char l i = Some ch -> get_char (set_char l i v) i = Some v.
+Proof.
+  induction l as [|[k x] l IH]; intros i ch v H; cbn [get_char set_char] in *; [discriminate|].
+  destruct (cid_eqb k i) eqn:E; cbn [get_char]; rewrite E; [reflexivity|]. eapply IH. exact H.
+Qed.
+
+(** every event an update adds to the outbox is about the updated characteristic and carries the
+    value that is STORED after the update (nil when nothing is stored) *)
+Lemma fold_events (i : cid) (val : gval) (base : list (connid * cid * gval)) : forall (cbs : list callback) w1,
+  (forall e, In e (outbox w1) -> In e base \/ (snd (fst e) = i /\ snd e = val)) ->
+  forall e, In e (outbox (fold_left (fun w cb =>
+        mkWorld (store w) (conns w) (chars w)
+                (outbox w ++ notify w i val (match cb_origin cb with Remote k => Some k | Local => None end))
+                (match cb_origin cb with Remote _ => cblog w ++ [(i, cb_new cb)] | Local => cblog w end)) cbs w1)) ->
+  In e base \/ (snd (fst e) = i /\ snd e = val).
+Proof.
+  induction cbs as [|cb cbs IH]; intros w1 Hob e; cbn [fold_left]; [apply Hob|].
+  apply IH. cbn [outbox]. intros e0 Hin. apply in_app_or in Hin. destruct Hin as [Hin|Hin]; [apply Hob; exact Hin|].
+  right. destruct e0 as [[k j] v0]. apply notify_spec in Hin. destruct Hin as (-> & -> & _). split; reflexivity.
+Qed.
+
+Lemma apply_update_event_value w i v o chk e :
+  In e (outbox (apply_update w i v o chk)) ->
+  In e (outbox w) \/
+  (snd (fst e) = i /\ exists ch ch' cbs, get_char (chars w) i = Some ch /\ update true ch v o chk = Ok (ch', cbs) /\
+                     snd e = match cvalue ch' with Some x => x | None => VNil end).
+Proof.
+  unfold apply_update. destruct (get_char (chars w) i) as [ch|] eqn:Hg; [|auto].
+  destruct (update true ch v o chk) as [[ch' cbs]| | |] eqn:Hu; auto.
+  intros Hin. apply (fold_events i (match cvalue ch' with Some x => x | None => VNil end) (outbox w)) in Hin.
+  - destruct Hin as [H|[H1 H2]]; [left; exact H|]. right. split; [exact H1|]. exists ch, ch', cbs. auto.
+  - cbn [outbox]. intros e0 H. left. exact H.
+Qed.
+
+Lemma update_unreadable strict c v o chk c' cbs :
+  p_read c = false -> update strict c v o chk = Ok (c', cbs) -> cvalue c' = cvalue c.
+Proof.
+  intros Hp. unfold update. destruct (convert strict (format c) v); [|intros H; injection H as <- _; reflexivity].
+  destruct (iface_eq (cvalue c) (clamp c g)) as [b|]; [|discriminate].
+  destruct (b && negb (upd_same c))%bool; [intros H; injection H as <- _; reflexivity|].
+  destruct (chk && negb (p_write c))%bool; [intros H; injection H as <- _; reflexivity|].
+  intros H. injection H as <- _. cbn [cvalue]. rewrite Hp. reflexivity.
+Qed.
+
+(** C11: whatever is written to (or set on) a characteristic without read permission, the events that
+    tell its subscribers about the change carry no value *)
+Lemma event_never_reveals_unreadable w i v o chk ch e :
+  get_char (chars w) i = Some ch -> p_read ch = false -> cvalue ch = None ->
+  In e (outbox (apply_update w i v o chk)) -> In e (outbox w) \/ (snd (fst e) = i /\ snd e = VNil).
+Proof.
+  intros Hg Hp Hv Hin. destruct (apply_update_event_value w i v o chk e Hin) as [H|(Hi & ch0 & ch' & cbs & Hg0 & Hu & Hval)]; [left; exact H|].
+  right. split; [exact Hi|]. rewrite Hg in Hg0. injection Hg0 as <-.
+  rewrite (update_unreadable true ch v o chk ch' cbs Hp Hu), Hv in Hval. exact Hval.
+Qed.
+
+(** a subscription entry for a characteristic without event permission is answered with -70406 wherever
+    it stands in a write of several entries, and what follows it is processed as if it were not there *)
+Lemma put_event_refused_any w c i ch e rest :
+  get_char (chars w) i = Some ch -> p_event ch = false ->
+  do_put w c ((i, None, Some e) :: rest) = (fst (do_put w c rest), (i, None, Some (-70406)%Z) :: snd (do_put w c rest)).
+Proof.
+  intros Hg Hp. cbn [do_put]. rewrite Hg. unfold observable_ch. rewrite Hp. cbn [negb].
+  destruct (do_put w c rest); reflexivity.
+Qed.
